@@ -405,10 +405,10 @@ def run_one(level, case, scratch):
     ops = case["ops"]
     if level == "testcase":
         world, init_code, steps = I.run_tc_history(case["seed"], case["salt"], case["cons"], case["init"], ops, scratch,
-                                                   case.get("exc", False), case.get("chop"), case.get("maxlen"))
+                                                   case.get("exc", False), case.get("chop"), case.get("maxlen"), case.get("uexp", 0))
         return world, steps, c_tcase(world, init_code, steps)
     world, steps = I.run_suite_history(case["seed"], case["salt"], case["cons"], ops, scratch,
-                                       case.get("exc", False), case.get("chop"), case.get("maxlen"), case.get("eager", False))
+                                       case.get("exc", False), case.get("chop"), case.get("maxlen"), case.get("eager", False), case.get("uexp", 0))
     return world, steps, c_scase(world, steps)
 
 
@@ -432,6 +432,9 @@ def run(ctx: vlib.Ctx):
             # search configuration of the real operators: executions that raise at an early statement, chop of
             # over-long tests on/off, small chromosome_length (tests at/over the limit, insertion refused)
             cfg = {"exc": ctx.rng.random() < 0.6, "chop": ctx.rng.random() < 0.8, "maxlen": ctx.rng.choice([2, 3, 4, 6, 48])}
+            # fitness unit: 1.0, or a tiny power of two (5e-324, 5.55e-17, 9.1e-13, 9.3e-10 < 1e-9 < 1.9e-9): every
+            # non-zero fitness is then a near miss that must NOT count as covered
+            cfg["uexp"] = ctx.rng.choice([0, 0, 0, -1074, -54, -40, -30, -29])
             if level == "suite":
                 cfg["eager"] = ctx.rng.random() < 0.5      # execute_multiple returns a list (eager) or a generator (lazy)
             if level == "testcase":
@@ -484,7 +487,7 @@ def run(ctx: vlib.Ctx):
                 ops2 = shrink_ops(list(case["ops"][:k + 1]), still)
                 ctx.fail(sig, msg, {"level": level, "mode": "real", "seed": case["seed"], "salt": case["salt"],
                                     "cons": case["cons"], "init": case.get("init", 0), "exc": case.get("exc", False),
-                                    "chop": case.get("chop"), "maxlen": case.get("maxlen"), "eager": case.get("eager", False),
+                                    "chop": case.get("chop"), "maxlen": case.get("maxlen"), "eager": case.get("eager", False), "uexp": case.get("uexp", 0),
                                     "ops": [list(o) for o in ops2]})
     ctx.count("answers-differing-from-scratch(all modes, incl. deliberately undisciplined)", stale_seen)
     ctx.leg("S", oracle_failures=n_or, histories=sum(1 for c in cases if c["mode"] == "real"))
@@ -506,7 +509,7 @@ def run(ctx: vlib.Ctx):
                 ctx.broken(f"correspondence:C12-model-vs-{level}-chromosome",
                            "the cache/flag model (about which the theorems are proved) no longer reproduces the implementation",
                            {"level": level, "mode": case["mode"], "seed": case["seed"], "salt": case["salt"], "cons": case["cons"],
-                            "exc": case.get("exc", False), "chop": case.get("chop"), "maxlen": case.get("maxlen"), "eager": case.get("eager", False),
+                            "exc": case.get("exc", False), "chop": case.get("chop"), "maxlen": case.get("maxlen"), "eager": case.get("eager", False), "uexp": case.get("uexp", 0),
                             "init": case.get("init", 0), "ops": [list(o) for o in case["ops"]],
                             "mismatching_histories": len(bad)})
         else:
